@@ -103,7 +103,8 @@ structure DictPlan where
   kept : Nat
   deriving DecidableEq, Repr
 
-/-- `size` = prefix length, `lgwin` (sanitised, 10..30), `quality` -/
+/-- `size` = prefix length, `lgwin` = the SANITISED window (`ensure_initialized` has run:
+10..30), `quality` (sanitised); `max_dict_size = (1usize << lgwin).wrapping_sub(16)` -/
 def dictPlan (size lgwin quality : Nat) : DictPlan :=
   let maxDict := 2 ^ lgwin - 16
   if size = 0 ∨ quality = 0 ∨ quality = 1 then ⟨false, 0, 0⟩
